@@ -918,6 +918,44 @@ func parseLayers(j judge, tier string) []Layer {
 				},
 			})
 		}
+		// C5: long mantissas that are (small odd number)·2^k, most of which the negative binary exponent
+		// cancels: the value is a short decimal although mantissa and power of two are long
+		{
+			heads := []string{"1", "2", "4", "8", "3", "5", "c", "a8", "ff"}
+			ks := []int{1, 3, 4, 5, 9, 10, 15, 16, 17, 24, 31, 32, 33, 47, 48, 62, 63, 64, 65, 80, 96, 127, 128}
+			if tier == "thorough" {
+				ks = ks[:0]
+				for k := 1; k <= 200; k++ {
+					ks = append(ks, k)
+				}
+			}
+			layers = append(layers, Layer{
+				Name:   "C5-long-mantissa-cancelled-by-exponent",
+				Units:  len(heads) * len(ks),
+				Bounds: fmt.Sprintf("hex literals (head %v)(k zero digits), k ∈ %d values up to %d, with p-exponents −4k−44 … −4k+8 (the value is head·2^e, |e| small) and octal/binary analogues; precision {7,19,34,60}; modes Even/AwayFromZero/ToNegativeInf; ±: exact when representable, else within 1 ulp", heads, len(ks), ks[len(ks)-1]),
+				Run: func(c *Ctx, u int) {
+					h, k := heads[u/len(ks)], ks[u%len(ks)]
+					for e := -44; e <= 8; e++ {
+						if c.Done() {
+							return
+						}
+						for _, sg := range []string{"", "-"} {
+							for _, p := range []uint32{7, 19, 34, 60} {
+								for _, md := range []uint8{ToNearestEven, AwayFromZero, ToNegativeInf} {
+									parseCase(c, j, sg+"0x"+h+strings.Repeat("0", k)+"p"+strconv.Itoa(-4*k+e), 0, p, md, false)
+									if len(h) == 1 && h[0] <= '7' {
+										parseCase(c, j, sg+"0o"+h+strings.Repeat("0", k)+"p"+strconv.Itoa(-3*k+e), 0, p, md, false)
+									}
+									if h == "1" {
+										parseCase(c, j, sg+"0b1"+strings.Repeat("0", 4*k)+"p"+strconv.Itoa(-4*k+e), 0, p, md, false)
+									}
+								}
+							}
+						}
+					}
+				},
+			})
+		}
 		// C3: fmt.Scanner entry point on input containing non-ASCII runes: same verdict and value as math/big's Float
 		{
 			bases := []string{"15", "1.5", "1e5", "0x1f", "-2.25e2", "1_000", "0b101", "7"} // all exactly representable in binary
